@@ -12,6 +12,10 @@ idle here), `processReturnReq`, (`processNewCommand`: idle), `parseFromMMU`, wit
 * `sendShootDownReqs` / `processShootdownCompleteRsp` / `preparePageMigrationRspToMMU` walking the
   page-per-GPU map in GPU order (`migOrder`), `preparePageForMigration` on the allocator / page table
   (`prepare`), the index expressions `d.GPUs[gpu-1]`, `d.RemotePMCPorts[host-1]` (fault `index`),
+* the old frame of the page being migrated: `sendMigrationReqToCP` remembers the command's
+  `ToReadFromPhysicalAddress` (`currentlyMigratingFromPAddr`, `oldF`), `processPageMigrationRspFromCP` gives it
+  back to the device whose range holds it (`MemoryAllocator.ReleasePhysicalPage`, `Alloc.release`) — the repair
+  of finding `C19-old-frame-not-released`,
 * the GPU port (capacity 40960000 both ways) and the MMU port (capacity 1 both ways).
 
 The counter-only model `Hs` of `C19_Base.lean` (one delivered message followed by ticks until quiescence)
@@ -58,6 +62,8 @@ structure Drv where
   toSend : List (Nat × Cmd) := []
   toCP : List MigCmd := []
   one : Bool := false
+  /-- `currentlyMigratingFromPAddr`: the old frame of the page whose migrate command is in flight -/
+  oldF : Nat := 0
   /-- `toSendToMMU`: id of the request it answers, its `VAddr` list -/
   toMMU : Option (Nat × List Nat) := none
   cur : Option MmuReq := none
@@ -111,7 +117,7 @@ def Drv.sMig (d : Drv) : Drv × Bool :=
   | m :: rest =>
     if d.one then (d, false)
     else if d.gpuOut.length < d.capGpuOut then
-      ({ d with gpuOut := d.gpuOut ++ [(m.gpu, .mig m.id)], toCP := rest, one := true }, true)
+      ({ d with gpuOut := d.gpuOut ++ [(m.gpu, .mig m.id)], toCP := rest, one := true, oldF := m.rd }, true)
     else (d, false)
 
 /-- the loop over `CurrAccessingGPUs` in `sendShootDownReqs` / `prepareGPURestartReqs`: `d.GPUs[gpu-1]`
@@ -162,8 +168,13 @@ def Drv.ret (d : Drv) : Drv × Bool :=
           (d.mkMigs ctx r.pageSize (r.host - 1) (migOrder d.ngpu r.map), true)
       else (d, true)
     | .mig =>
+      -- repaired (finding C19-old-frame-not-released): the page migration controller has copied the page whose
+      -- command was in flight; its old frame goes back to the device that owns it (`ReleasePhysicalPage`)
+      match (if d.one then d.alloc.release d.oldF else .ok d.alloc) with
+      | .error e => ({ d with fault := some e }, true)
+      | .ok a' =>
       let n := CP.dec d.mig
-      let d := { d with mig := n, one := false, gpuIn := rest }
+      let d := { d with alloc := a', mig := n, one := false, gpuIn := rest }
       if n = 0 then
         match d.cur with
         | none => ({ d with fault := some "nilderef" }, true)
